@@ -1,3 +1,4 @@
+pub mod c02;
 pub mod c07;
 pub mod c16;
 pub mod c18;
@@ -8,6 +9,7 @@ use crate::core::Tier;
 
 pub fn run(id: &str, tier: Tier) -> Option<i32> {
     Some(match id {
+        "C02" => c02::run(tier),
         "C07" => c07::run(tier),
         "C16" => c16::run(tier),
         "C18" => c18::run(tier),
@@ -28,6 +30,7 @@ pub fn replay(property: &str, part: &str, case: &serde_json::Value) -> Option<Re
         ("C18", "histories") => replay_part(&c18::Histories, case, 1),
         ("C20", "histories") => replay_part(&c20::Histories, case, 1),
         ("C19", "histories") => replay_part(&c19::Histories, case, 5),
+        ("C02", "traffic") => replay_part(&c02::Traffic(4_000_000), case, 1),
         _ => return None,
     })
 }
